@@ -23,7 +23,7 @@ use constraint::store::ConstraintStore;
 pub mod map_sum;
 
 mod reification;
-pub use reification::reify;
+pub use reification::{reified, reify};
 
 pub type SResult<U, E> = Result<State<U, E>, ()>;
 
